@@ -154,6 +154,24 @@ def gen_cases(tier, rng):
     for c in C03.gen_cases(tier, rng.fork("mc")):
         if c["meta"]["stream"] == "malformed":
             cases.append({"id": "mc/" + c["id"], "hex": c["hex"], "meta": {"stream": "minecraft-malformed", "kind": "mutated"}})
+    cases += mc_framing_cases(tier, r)
+    # random packets over the boundary alphabet
+    for i in range(300 if tier == "quick" else 20000):
+        n = 1 + r.below(3)
+        evs = [r.bytes(r.choice([0, 1, 4, 5, 6, 9, 12, 20, 60]), [0x00, 0x01, 0x7f, 0x80, 0xfe, 0xff, 0x41, 0x49, 0x44, 0x45, 0x6d]) for _ in range(n)]
+        if r.chance(1, 2) and evs[0]:
+            evs[0] = b"\xff\xff\xff\xff" + evs[0]
+        elif r.chance(1, 2):
+            evs[0] = b"\xfe\xff\xff\xff" + evs[0]
+        s = sp[i % len(sp)]
+        cases.append({"id": "rand/%d" % i, "hex": assemble(s["settings"], evs, b"\x00"), "meta": {"stream": "random-packets", "kind": "random"}})
+    return cases
+
+
+def mc_framing_cases(tier, r):
+    """Minecraft Java framing: packet length, packet id and string length VarInts at their extremes (negative, overlong, huge)"""
+    import C03
+    cases = []
     # Minecraft Java framing: packet length, packet id and string length VarInts at their extremes (negative, overlong, huge)
     def vi(v):
         v &= 0xffffffff
@@ -165,7 +183,7 @@ def gen_cases(tier, rng):
                 out += bytes([b7 | 0x80])
             else:
                 return out + bytes([b7])
-    VEXT = [vi(0), vi(1), vi(2), vi(127), vi(128), vi(16383), vi(2097151), vi(0x7fffffff), vi(-1), vi(-2), vi(-2147483648), b"\xff\xff\xff\xff\xff", b"\x80\x80\x80\x80\x80\x01",
+    VEXT = [vi(0), vi(1), vi(2), vi(127), vi(128), vi(16383), vi(2097151), vi(0x04000000), vi(0x20000000), vi(0x7fffffff), vi(-1), vi(-2), vi(-2147483648), b"\xff\xff\xff\xff\xff", b"\x80\x80\x80\x80\x80\x01",
             b"\xff\xff\xff\xff\x7f", b"\x80", b"\xff\xff"]
     jtxt = b'{"version":{"name":"x","protocol":5},"players":{"max":2,"online":1},"description":"d"}'
     for i in range(500 if tier == "quick" else 15000):
@@ -184,16 +202,6 @@ def gen_cases(tier, rng):
         js = C03.java_json_of(stream)
         cases.append({"id": "mcframe/%d" % i, "hex": C03.mc_case(variant, 25565, [], [(stream, r.chance(1, 8))], [js] if js is not None else []),
                       "meta": {"stream": "minecraft-java-framing", "kind": "random"}})
-    # random packets over the boundary alphabet
-    for i in range(300 if tier == "quick" else 20000):
-        n = 1 + r.below(3)
-        evs = [r.bytes(r.choice([0, 1, 4, 5, 6, 9, 12, 20, 60]), [0x00, 0x01, 0x7f, 0x80, 0xfe, 0xff, 0x41, 0x49, 0x44, 0x45, 0x6d]) for _ in range(n)]
-        if r.chance(1, 2) and evs[0]:
-            evs[0] = b"\xff\xff\xff\xff" + evs[0]
-        elif r.chance(1, 2):
-            evs[0] = b"\xfe\xff\xff\xff" + evs[0]
-        s = sp[i % len(sp)]
-        cases.append({"id": "rand/%d" % i, "hex": assemble(s["settings"], evs, b"\x00"), "meta": {"stream": "random-packets", "kind": "random"}})
     return cases
 
 
